@@ -151,4 +151,16 @@ def standin_large(ctx):
 
 
 UNITS["standin/large-numbering"] = standin_large
+def standin_history(ctx):
+    import time
+    from skv import core
+    t0 = time.time()
+    r = core.run_native("standin_mesh.py", dict(what="history", seed=ctx.seed, tier=ctx.tier), timeout=3000)
+    ctx.standin("connectivity of the original and of the result after mesh operations on meshes with warm caches (HISTORY)", r["bound"], r["cases"], r["failures"],
+                samples=r["samples"], time_s=time.time() - t0)
+
+
+UNITS["standin/history"] = standin_history
+
+
 HEAVY_FIRST = ["standin/large-numbering", "standin/connectivity", "ent/hex/edges"]
